@@ -28,7 +28,7 @@ pub static PROP: PropDef = PropDef {
         "simulated transport, see C01",
     ],
     tape_len: 220,
-    random_cases: |t| t.pick(60_000, 2_000_000),
+    random_cases: |t| t.pick(240_000, 20_000_000),
     run_tape,
     exhaustive: Some(exhaustive),
     run_direct: Some(run_direct),
@@ -85,6 +85,9 @@ pub struct Scn {
     pub grease: bool,
     pub webtransport: bool,
     pub uni_credit: u64,
+    /// the peer never grants more unidirectional streams than `uni_credit` (only with uni_credit == 3: control, encoder and
+    /// decoder stream can be opened, the optional grease stream waits for ever)
+    pub uni_frozen: bool,
     pub send_credit: u64,
     pub streams: Vec<UniStream>,
     pub style: Style,
@@ -424,7 +427,7 @@ async fn client_app(net: Net, grease: bool, o: Shared<Obs>, sh: Shared<Option<Ar
 fn scn_json(s: &Scn) -> Value {
     json!({
         "role": if s.server { "server" } else { "client" }, "grease": s.grease, "webtransport": s.webtransport,
-        "uni_credit": if s.uni_credit == UNLIMITED { -1 } else { s.uni_credit as i64 }, "send_credit": if s.send_credit == UNLIMITED { -1 } else { s.send_credit as i64 },
+        "uni_credit": if s.uni_credit == UNLIMITED { -1 } else { s.uni_credit as i64 }, "uni_frozen": s.uni_frozen, "send_credit": if s.send_credit == UNLIMITED { -1 } else { s.send_credit as i64 },
         "style": format!("{:?}", s.style), "streams": s.streams.iter().map(|st| format!("{:?} form={} end={:?}", st.kind, st.type_form, st.end_after)).collect::<Vec<_>>(),
     })
 }
@@ -532,6 +535,7 @@ pub fn run_scn(s: &Scn, merge: &mut Tape, sched: &mut Tape, ctx: &mut Ctx) -> Ve
         let mut g = net.lock();
         g.default_credit[h3_side.idx()] = s.send_credit;
         g.ends[h3_side.idx()].stream_credit[1] = s.uni_credit;
+        g.ends[h3_side.idx()].grants_frozen = s.uni_frozen && s.uni_credit == 3;
     }
     let o: Shared<Obs> = shared(Obs::default());
     let sh: Shared<Option<Arc<SharedState>>> = shared(None);
@@ -629,6 +633,9 @@ pub fn run_scn(s: &Scn, merge: &mut Tape, sched: &mut Tape, ctx: &mut Ctx) -> Ve
     if starved {
         ctx.class("credit_starved_hit");
     }
+    if s.uni_frozen && s.uni_credit == 3 && s.grease {
+        ctx.class("grease_stream_blocked_for_ever");
+    }
     let nframes: usize = s.streams.iter().map(|st| if let Kind::Control { frames, .. } = &st.kind { frames.len() } else { 0 }).sum();
     if (s.streams.len() >= 2 || nframes >= 2) && (varint_split || starved || !hard.is_empty()) {
         ctx.nontrivial(&(format!("{:?}", scn_json(s)), ex.steps));
@@ -717,20 +724,21 @@ fn gen(t: &mut Tape, bounded: bool) -> Scn {
     }
     // keep scenarios to at most two violating elements
     loop {
-        let m = model(&Scn { server, grease: false, webtransport: false, uni_credit: UNLIMITED, send_credit: UNLIMITED, streams: streams.clone(), style: Style::Eager, sig: (false, false) });
+        let m = model(&Scn { server, grease: false, webtransport: false, uni_credit: UNLIMITED, uni_frozen: false, send_credit: UNLIMITED, streams: streams.clone(), style: Style::Eager, sig: (false, false) });
         if m.violations.len() <= 2 || streams.len() <= 1 {
             break;
         }
         streams.pop();
     }
-    let credit_mode = t.pick(3);
+    let credit_mode = t.pick(4);
     if bounded {
         return Scn {
             server,
             grease: true,
             webtransport: false,
-            uni_credit: [UNLIMITED, 3, 0][credit_mode],
-            send_credit: [UNLIMITED, 0, 5][credit_mode],
+            uni_credit: [UNLIMITED, 3, 0, 3][credit_mode],
+            uni_frozen: credit_mode == 3,
+            send_credit: [UNLIMITED, 0, 5, UNLIMITED][credit_mode],
             streams,
             style: if t.bool() { Style::Tiny } else { Style::Eager },
             sig: (true, false),
@@ -742,12 +750,14 @@ fn gen(t: &mut Tape, bounded: bool) -> Scn {
         webtransport: server && t.chance(1, 3),
         uni_credit: match credit_mode {
             0 => UNLIMITED,
-            1 => 3,
+            1 | 3 => 3,
             _ => t.pick(3) as u64,
         },
+        uni_frozen: credit_mode == 3,
         send_credit: match credit_mode {
             0 => UNLIMITED,
             1 => 0,
+            3 => *t.choose(&[UNLIMITED, 0, 5]),
             _ => *t.choose(&[0u64, 1, 5, 40]),
         },
         streams,
